@@ -396,11 +396,15 @@ func (e *exec[K]) checkLookup(c Coll[K], lk int) error {
 	return nil
 }
 
+// ShippedMaxKVs is the most keys a node holds with the shipped fan-out of 16: the property promises at most
+// that many comparisons per level.
+const ShippedMaxKVs = 15
+
 func (e *exec[K]) checkCalls(what string, lk, used int) error {
 	if !e.opts.Shape {
 		return nil
 	}
-	per := tree.VerifMaxKVs
+	per := ShippedMaxKVs // the property's number, not whatever the code under test says its fan-out is
 	if e.cfg.Flavor == "less" {
 		per *= 2
 	}
